@@ -2,6 +2,7 @@ package rules
 
 import (
 	"go/ast"
+	"go/constant"
 	"go/token"
 	"go/types"
 	"strings"
@@ -33,6 +34,8 @@ type c12Env struct {
 	c        *Ctx
 	fld      *types.Var          // the Peer field behind Synced()
 	synced   *types.Func         // (*Peer).Synced
+	doneVal  constant.Value      // for a mark that is not a bool: Synced() reports fld == doneVal (doneEq) or fld != doneVal
+	doneEq   bool
 	setters  map[*types.Func]int // function writing the mark from its bool parameter → parameter index
 	unsyncFn map[*types.Func]bool
 	ban      *types.Func
@@ -121,6 +124,25 @@ func getC12Env(c *Ctx) *c12Env {
 	if env.fld == nil {
 		ir.Fail("the field behind (*Peer).Synced not found")
 	}
+	// a mark with more than two spellings (`syncState == peerSyncDone`): which constant means "synced"
+	if !isBasicKind(types.Bool)(env.fld.Type()) {
+		ir.Walk(sf.Body, false, func(x ast.Node) {
+			be, ok := x.(*ast.BinaryExpr)
+			if !ok || (be.Op != token.EQL && be.Op != token.NEQ) {
+				return
+			}
+			for _, pair := range [][2]ast.Expr{{be.X, be.Y}, {be.Y, be.X}} {
+				if sf.FieldOf(ast.Unparen(pair[0])) == env.fld {
+					if tv, has := sf.Info().Types[ast.Unparen(pair[1])]; has && tv.Value != nil {
+						env.doneVal, env.doneEq = tv.Value, be.Op == token.EQL
+					}
+				}
+			}
+		})
+		if env.doneVal == nil {
+			ir.Fail("(*Peer).Synced does not compare its field with a constant")
+		}
+	}
 	// setters: functions of the package that store one of their bool parameters into the mark
 	for _, f := range c.P.PkgFuncs("syncer") {
 		if f.Obj == nil || f.Type.Params == nil {
@@ -198,6 +220,13 @@ func c12reaches(c *Ctx, target *types.Func) map[*types.Func]bool {
 				break
 			}
 		}
+		// … or hand it on as a value (`announcer((*Peer).RelayV2Header, …)`, a method value)
+		ast.Inspect(f.Body, func(y ast.Node) bool {
+			if id, ok := y.(*ast.Ident); ok && f.Info().Uses[id] == types.Object(target) {
+				r[f.Obj] = true
+			}
+			return true
+		})
 	}
 	return r
 }
@@ -207,6 +236,26 @@ func (env *c12Env) stop(fn *types.Func) bool {
 		return true
 	}
 	return env.unsyncFn[fn] || fn == env.ban || fn == env.synced || env.fetch[fn] || env.hdrFns[fn] || env.outFns[fn]
+}
+
+// markVal: does the constant expression e, stored into the mark, mean "synced"?
+func (env *c12Env) markVal(f *ir.Func, e ast.Expr) (synced, known bool) {
+	if env.doneVal == nil {
+		return constBoolOf(f, e)
+	}
+	e = ast.Unparen(e)
+	var v constant.Value
+	if tv, has := f.Info().Types[e]; has && tv.Value != nil {
+		v = tv.Value
+	} else if id, isID := e.(*ast.Ident); isID {
+		if cst, isConst := f.Info().Uses[id].(*types.Const); isConst {
+			v = cst.Val()
+		}
+	}
+	if v == nil {
+		return false, false
+	}
+	return constant.Compare(v, token.EQL, env.doneVal) == env.doneEq, true
 }
 
 // markStore: node n stores into the mark; val is the stored expression (nil when not a plain store).
@@ -247,7 +296,7 @@ func (env *c12Env) markWrite(f *ir.Func, n *cfgx.Node) (val, known, is bool) {
 		if e == nil {
 			return false, false, true
 		}
-		v, k := constBoolOf(f, e)
+		v, k := env.markVal(f, e)
 		return v, k, true
 	}
 	for _, call := range f.NodeCalls(n) {
@@ -255,7 +304,7 @@ func (env *c12Env) markWrite(f *ir.Func, n *cfgx.Node) (val, known, is bool) {
 			continue
 		}
 		if i, ok := env.setters[call.Fn]; ok && i < len(call.Expr.Args) {
-			v, k := constBoolOf(f, call.Expr.Args[i])
+			v, k := env.markVal(f, call.Expr.Args[i])
 			return v, k, true
 		}
 	}
